@@ -141,6 +141,21 @@ def r2(R, f):
             % estr(rx.a[1]))
     R.check(not (("<", err, tolsq) in gr and any(o in ("<", "<=") and b == "%s[%s]" % (p_drlv2, iv) for o, a, b in gr)),
             "C07.R2", f.file, rx.line, f.name, estr(rx), "release happens on the take path")
+    # every peak is compared with this grain: no path of an iteration leaves the loop body (continue / goto / break) before the error of
+    # this grain has been computed and tested - a skip that depends on what an earlier grain stored makes the result depend on the
+    # order of the grains ("first within tolerance wins" instead of "best fit wins")
+    body = ompd[0].body.body
+    errdef = [n for n in cfg.find_nodes(lambda n: n.k == "expr" and n.e is not None and n.e.k == "asg" and n.e.a[0].k == "var" and n.e.a[0].name == err)]
+    for st in cfront.swalk(body):
+        if st.k in ("continue", "break", "goto"):
+            ids = cfg.stmt_nodes.get(id(st), [])
+            doms = set(cfg.dominators(ids[0])) if ids else set()
+            late = any(d.id in doms for d in errdef)
+            gs = cfg.guards(ids[0]) if ids else []
+            R.check(late, "C07.R2", f.file, st.line, f.name,
+                    "'%s' in the per-peak loop%s" % (st.k, (" under " + " && ".join(("%s" if pol else "!(%s)") % estr(e) for e, pol in gs[:3])) if gs else ""),
+                    "a peak is skipped for this grain before its error %s is computed and compared with %s[%s]: whether the grain gets the peak then depends "
+                    "on what earlier grains stored (order of the grains), not on which grain fits best" % (err, p_drlv2, iv))
     # the error is the squared hkl distance (shape shared with C06.R3, checked there in full)
     sq = None
     for st, x in cfront.all_exprs(f.body):
